@@ -10,7 +10,7 @@
    include/crab/fixpoint/wto.hpp); property and checker: Fix/WtoCheck.v; invariants of the
    algorithm: Fix/WtoSound.v; termination (the fuel of the model suffices): Fix/WtoTotal.v. *)
 From Coq Require Import List Arith.
-From CrabV Require Import Fix.Wto Fix.WtoCheck Fix.WtoSound Fix.WtoTotal.
+From CrabV Require Import Fix.Wto Fix.WtoCheck Fix.WtoSound Fix.WtoTotal Fix.EngineBelow Fix.WtoRoot.
 Import ListNotations.
 
 (* the full statement: the ordering computed by the model of wto.hpp passes the checker *)
@@ -73,3 +73,9 @@ Theorem C07_example_irreducible :
   build [[1; 2]; [2]; [1; 3]; []] 0 = Some [Vertex 0; Cycle 1 [Vertex 2]; Vertex 3].
 Proof. exact ex_irreducible. Qed.
 Print Assumptions C07_example_irreducible.
+
+(* the ordering starts with the block it was built from (used by C01/C06: crab's run(init)) *)
+Theorem C07_wto_starts_with_entry : forall g e w, build g e = Some w ->
+  hd_error (flat w) = Some e /\ In e (flat w) /\ entry_ok e w = true.
+Proof. exact build_entry_ok. Qed.
+Print Assumptions C07_wto_starts_with_entry.
